@@ -127,7 +127,9 @@ class Encoder:
             if c.has_default and values_equal(v[c.name], c.default):
                 return False
             return True
-        nextra = self.extra.get(id(rt), 0)
+        xpat = self.extra.get(id(rt), 0)
+        xpat = [1] * xpat if isinstance(xpat, int) else list(xpat)
+        nextra = len(xpat) if any(xpat) else 0
         bits = []
         anyadd = any(present(c) for c in adds) or nextra > 0
         if rt.ext is not None:
@@ -146,7 +148,7 @@ class Encoder:
             elif not (c.optional or c.has_default):
                 raise Unsupported("missing mandatory")
         if rt.ext is not None and anyadd:
-            pb = [1 if present(c) else 0 for c in adds] + [1] * nextra
+            pb = [1 if present(c) else 0 for c in adds] + [1 if x else 0 for x in xpat[:nextra]]
             unused = (-len(pb)) % 8
             pbb = pb + [0] * unused
             bm = bytes(int("".join(map(str, pbb[i:i + 8])), 2) for i in range(0, len(pbb), 8))
@@ -156,6 +158,8 @@ class Encoder:
                     body = self.enc(c.type, v[c.name])
                     out += length_det(len(body)) + body
             for i in range(nextra):
+                if not xpat[i]:
+                    continue
                 body = bytes([0xA5, i, 0x5A][: i % 3])
                 out += length_det(len(body)) + body
         return out
